@@ -108,6 +108,22 @@ Proof.
   unfold needParen, has_prec_tok. destruct (table_get precedences (ttype t)); [eauto|discriminate].
 Qed.
 
+Lemma first_item_total c : forall sl x rest, Forall (we_ok pp) sl -> else_items c sl = x :: rest ->
+  forall ps, exists ps', first_item_with pp c sl ps = Some ps'.
+Proof.
+  induction sl as [|y r IH]; intros x rest HF E ps.
+  - destruct c; discriminate E.
+  - inversion HF as [|? ? (m & -> & Hm) HF']; subst. cbn [first_item_with].
+    destruct c; cbn [andb].
+    + unfold else_items in E. cbn [filter] in E. destruct (is_comment (Some m)) eqn:Ec; cbn [negb] in E.
+      * eapply IH; [exact HF'|exact E].
+      * apply Hm.
+    + apply Hm.
+Qed.
+
+Lemma else_items_in c sl x : In x (else_items c sl) -> In x sl.
+Proof. unfold else_items. destruct c; [intros H; apply filter_In in H; tauto|auto]. Qed.
+
 Lemma print_total_aux : forall n, T n.
 Proof.
   induction n using node_ind2; intros Hp;
@@ -152,13 +168,20 @@ Proof.
     destruct b as [alt|]; [|eauto].
     simpl in Hb. destruct alt as [| | | | | | | |sl| | | | | | | | | | | |]; try discriminate.
     destruct (H1 Hb) as [Hall Hel].
-    destruct sl as [|[e|] [|]]; try apply Hall.
-    + (* else if: a single statement *)
+    unfold else_shape_of. destruct (else_items (p_compact _) sl) as [|[e|] [|? ?]] eqn:Ei; try apply Hall.
+    + (* else if: a single printed statement *)
+      assert (Hin : In (Some e) sl) by (eapply else_items_in; rewrite Ei; now left).
       destruct (node_tok e) as [et|] eqn:Het.
       * destruct (tok_is et token_IF); [|apply Hall].
-        inversion Hel as [|? ? (m & E & Hm) _]; subst. injection E as <-. apply Hm.
-      * destruct e; simpl in Het, Hb; discriminate.
-    + simpl in Hb. discriminate.
+        eapply first_item_total; [exact Hel|exact Ei].
+      * exfalso. rewrite Forall_forall in Hel. destruct (Hel _ Hin) as (m & E & _). injection E as <-.
+        simpl in Hb. clear - Hb Hin Het.
+        induction sl as [|y r IHr]; [contradiction|]. simpl in Hb. apply andb_true_iff in Hb as [Hy Hr].
+        destruct Hin as [->|Hin]; [|now apply IHr].
+        simpl in Hy. destruct e; simpl in Het, Hy; discriminate.
+    + (* a nil statement *)
+      exfalso. assert (Hin : In None sl) by (eapply else_items_in; rewrite Ei; now left).
+      rewrite Forall_forall in Hel. destruct (Hel _ Hin) as (m & E & _). discriminate E.
   - (* builtin *)
     change (printable (NBuiltin t ps)) with (wol_with printable ps) in Hp.
     cbn [pp]. match goal with |- context [coma_list_with pp ps ?p] =>
